@@ -38,6 +38,9 @@ def run(rep, tier):
     # add_triangle / add_rect / add_polygon dispatch degenerate shapes on HasDimensions (tables shared with C01)
     from . import dims
     dims.run(rep, F, "R6.7")
+    from . import c01 as _c01
+    from ..report import Alias as _Alias
+    _c01.dimension_tables(_Alias(rep, "R6.7"), F)      # the container folds (dimensions / boundary_dimensions / is_closed over the members; C01 R1.6)
     centroid_tables(rep, F)
     # degenerate shapes are classified with the scalar's own kernel (C03 R3.5): a collinear triangle taken for an areal one gets a zero weight
     from . import c03
